@@ -135,6 +135,25 @@ func faultCase(w *W, idx int, async bool) {
 		return
 	}
 	L, K := dry.written, dry.calls
+	// what a healthy destination received must be a snapshot: it restores to the collection's state
+	{
+		c, err := h.wd.buildLike(h.wd.Cap, nil, false, -1)
+		if err != nil {
+			panic(err)
+		}
+		err = c.Restore(bytes.NewReader(dry.buf.Bytes()))
+		if err != nil {
+			c.Close()
+			fail(fmt.Sprintf("Snapshot to a healthy writer returned nil and wrote %d bytes in %d calls, which do not restore: %v", L, K, err), dry.spec)
+			return
+		}
+		d := cmpStates(dumpState(h.wd.P, sv), dumpState(c, sv), "collection", "restored", sv)
+		c.Close()
+		if d != "" {
+			fail("the fault-free snapshot restores wrongly: "+d, dry.spec)
+			return
+		}
+	}
 	var specs []faultSpec
 	maxSpecs := 260
 	if async {
@@ -203,6 +222,10 @@ func faultCase(w *W, idx int, async bool) {
 			}
 		} else if err != nil {
 			fail("the destination never failed but Snapshot returned "+err.Error(), f)
+			return
+		}
+		if err == nil && fw.written == 0 {
+			fail("Snapshot returned nil without handing a single byte to the destination (no snapshot is empty: Restore rejects an empty stream)", f)
 			return
 		}
 		// the collection keeps working
